@@ -155,6 +155,14 @@ FileInfo BuildNode::getLinkInfo(basic::FileSystem& fileSystem) const {
 basic::CommandSignature BuildNode::getSignature() const {
   basic::CommandSignature sig;
   sig.combine(static_cast<unsigned int>(type));
+  // The call above resolves to combine(bool) and only tells plain nodes from
+  // all others; distinguish the remaining node types (keeping the signatures
+  // of plain and directory nodes as they were).
+  if (type == NodeType::DirectoryStructure) {
+    sig.combine(StringRef("directory-structure"));
+  } else if (type == NodeType::Virtual) {
+    sig.combine(StringRef("virtual"));
+  }
   // We include the name of all producer rules in the signature to ensure that
   // we properly pick up changes in build graph structure.  For example, a node
   // that was previously a plain input that has changed to become a produced
